@@ -12,6 +12,7 @@ def micro? (j : Json) : Option Micro :=
   | .arr #[.str "loc"] => some .loc
   | .arr #[.str "rdg"] => some .rdg
   | .arr #[.str "delAll"] => some .delAll
+  | .arr #[.str "ctor", .bool w] => some (.ctor w)
   | .arr #[.str "read", c] => do some (.read (← nat? c))
   | .arr #[.str "del", g] => do some (.del (← nat? g))
   | .arr #[.str "delSpace", c] => do some (.delSpace (← nat? c))
@@ -84,6 +85,7 @@ def handle (j : Json) : Json :=
         ("cmp", Json.mkObj [
           ("lock", match s.lock with | none => Json.null | some t => num t),
           ("relErr", Json.bool s.relErr),
+          ("gen", num s.sh.gen),
           ("ctr", Json.arr (cs.map fun c => num (s.sh.ctr c)).toArray),
           ("nodes", Json.arr ((sortNodes (dictView s.sh.nodes)).map fun nd =>
               Json.arr #[num nd.space, num nd.id, num nd.owner]).toArray),
